@@ -29,6 +29,9 @@ pub struct Case {
     pub chunks: Option<Vec<usize>>,
     pub charset: u8,
     pub ops: Vec<Op>,
+    /// user-defined roller around the real one: scripted failures per roller call (file left in place)
+    #[serde(default)]
+    pub flaky: Vec<bool>,
 }
 
 fn text_of(len: usize, charset: u8) -> String {
@@ -71,8 +74,9 @@ pub fn strategy() -> impl Strategy<Value = Case> {
         prop::option::weighted(0.4, prop::collection::vec(prop_oneof![1usize..8, 500usize..1100], 1..=4)),
         0u8..3,
         prop::collection::vec(op, 1..=25),
+        prop_oneof![3 => Just(vec![]), 1 => prop::collection::vec(prop::bool::weighted(0.4), 1..=6)],
     )
-        .prop_map(|(limit, append_mode, pre, count, chunks, charset, ops)| Case { limit, append_mode, pre, count, chunks, charset, ops })
+        .prop_map(|(limit, append_mode, pre, count, chunks, charset, ops, flaky)| Case { limit, append_mode, pre, count, chunks, charset, ops, flaky })
 }
 
 pub fn check(tmp: &Path, case: &Case, obs: &mut Obs) -> CaseResult {
@@ -96,8 +100,10 @@ fn check_in(dir: &Path, case: &Case, obs: &mut Obs) -> CaseResult {
     let pre_size = model_active.as_ref().map(|c| c.len()).unwrap_or(0);
     let log: Arc<Mutex<Vec<Consultation>>> = Arc::new(Mutex::new(vec![]));
     let roller = RollSpec::Fixed { base: 0, count: case.count, pattern: "arch.{}.log".into() };
+    let failures = Arc::new(std::sync::atomic::AtomicUsize::new(0));
+    let mut roller_calls = 0usize; // calls seen by the current appender's roller
     let build = |model_active: &mut Option<Vec<u8>>| -> Result<log4rs::append::rolling_file::RollingFileAppender, Failure> {
-        let policy = Box::new(ObservingPolicy { inner: make_policy(dir, &TrigSpec::Size(n), &roller).unwrap(), log: log.clone() });
+        let policy = Box::new(ObservingPolicy { inner: make_flaky_policy(dir, &TrigSpec::Size(n), &roller, &case.flaky, &failures).unwrap(), log: log.clone() });
         let a = build_appender(&path, case.append_mode, &case.chunks, policy).map_err(|e| Failure { sig: "C06:build".into(), msg: e.to_string() })?;
         // the appender opens the file immediately; truncate mode discards pre-existing content at open
         if !case.append_mode || model_active.is_none() {
@@ -114,6 +120,7 @@ fn check_in(dir: &Path, case: &Case, obs: &mut Obs) -> CaseResult {
     let mut near_limit = false;
     let mut deltas: Vec<i64> = vec![];
     let mut rotations = 0;
+    let mut flaky_hit = false;
     for (oi, op) in case.ops.iter().enumerate() {
         let size_now = model_active.as_ref().map(|c| c.len()).unwrap_or(0) as i64;
         let len = match op {
@@ -124,6 +131,7 @@ fn check_in(dir: &Path, case: &Case, obs: &mut Obs) -> CaseResult {
                     // rotated away and not yet re-created: the new appender creates it empty
                 }
                 app = build(&mut model_active)?;
+                roller_calls = 0;
                 if !case.append_mode {
                     model_active = Some(vec![]);
                 } else if model_active.is_none() {
@@ -140,14 +148,19 @@ fn check_in(dir: &Path, case: &Case, obs: &mut Obs) -> CaseResult {
         log.lock().unwrap().clear();
         let res = catch(|| append_msg(&app, &msg));
         obs.sub_evals += 1;
-        match res {
-            Err(p) => return fail("C06:panic", format!("op {}: append panicked: {}", oi, p)),
-            Ok(Err(e)) => return fail("C06:append-error", format!("op {}: append returned an error on an unobstructed directory: {}", oi, e)),
-            Ok(Ok(())) => {}
-        }
         let mut active = model_active.take().unwrap_or_default();
         active.extend_from_slice(msg.as_bytes());
         let true_size = active.len() as u64;
+        // the scripted roller fails on this call: the append reports it and the file stays where it is
+        let roller_fails = true_size > n && case.flaky.get(roller_calls).copied().unwrap_or(false);
+        if true_size > n {
+            roller_calls += 1;
+        }
+        match res {
+            Err(p) => return fail("C06:panic", format!("op {}: append panicked: {}", oi, p)),
+            Ok(Err(e)) => ensure!(roller_fails, "C06:append-error", "op {}: append returned an error although the roller did not fail: {}", oi, e),
+            Ok(Ok(())) => ensure!(!roller_fails, "C06:error-swallowed", "op {}: the roller failed but the append reported success", oi),
+        }
         let cons = log.lock().unwrap().clone();
         ensure!(cons.len() == 1, "C06:consultations", "op {}: the policy was consulted {} times during one append", oi, cons.len());
         let c = &cons[0];
@@ -158,6 +171,14 @@ fn check_in(dir: &Path, case: &Case, obs: &mut Obs) -> CaseResult {
         );
         let should_roll = true_size > n;
         let rolled = !c.exists_after;
+        if roller_fails {
+            flaky_hit = true;
+            ensure!(!rolled && c.on_disk == Some(true_size), "C06:failed-roll-state", "op {}: the roller failed without touching the file, yet the active path changed", oi);
+            let on_disk = std::fs::read(&path).ok();
+            ensure!(on_disk.as_ref() == Some(&active), "C06:active-content", "op {}: after a failed roll the active file differs from pre-existing ++ records ({} vs {} bytes)", oi, on_disk.map(|b| b.len()).unwrap_or(0), active.len());
+            model_active = Some(active);
+            continue;
+        }
         ensure!(
             rolled == should_roll,
             if should_roll { "C06:roll-deferred" } else { "C06:roll-early" },
@@ -183,12 +204,13 @@ fn check_in(dir: &Path, case: &Case, obs: &mut Obs) -> CaseResult {
     }
     let _ = newest_archive;
     let _ = snap(dir);
-    obs.nontrivial = near_limit || (case.pre.is_some() && case.append_mode && pre_size > 0) || case.charset % 3 != 0;
+    obs.nontrivial = near_limit || flaky_hit || (case.pre.is_some() && case.append_mode && pre_size > 0) || case.charset % 3 != 0;
     obs.class_if(near_limit, "size-within-1-of-limit");
     obs.class_if(case.pre.is_some() && case.append_mode && pre_size > 0, "pre-existing-content-append-mode");
     obs.class_if(case.pre.is_some() && !case.append_mode, "pre-existing-content-truncate-mode");
     obs.class_if(case.charset % 3 != 0, "multi-byte-payload");
     obs.class_if(case.chunks.is_some(), "multi-chunk-encoder");
+    obs.class_if(flaky_hit, "scripted-roller-failure");
     obs.class_if(case.ops.iter().any(|o| matches!(o, Op::Restart)), "restart");
     obs.class(format!("rotations={}", rotations.min(5)));
     for d in deltas {
@@ -220,7 +242,7 @@ pub fn replay(part: &str, case: serde_json::Value) -> Option<CaseResult> {
 pub fn meta() -> EvidenceMeta {
     EvidenceMeta {
         level: "exploration",
-        rule: "cases = limit N in {0,1,2,63,64,1023,1024,1025, random <= 5000} x pre-existing active file (absent / N-1 / N / N+1 / random) x append or truncate mode x window count 1-3 x pattern or multi-chunk encoder x 1-25 operations: appends whose byte length is chosen relative to the room left before the limit (room-3..room+3) or absolute around the 1 KiB buffer, with 1-4-byte characters, and restarts; the real CompoundPolicy(SizeTrigger, FixedWindowRoller) is wrapped in a harness Policy recording len_estimate and fs::metadata().len() at every consultation. Oracle: exactly one consultation per append; len_estimate == on-disk size == model size (pre-existing + records; 0 at open in truncate mode); rotation during this append iff size > N; afterwards the active file is absent or <= N bytes and byte-identical to pre-existing ++ records; the newest archive equals the rolled content. non-trivial = a consultation with |size - N| <= 1, or pre-existing content in append mode, or multi-byte payload".into(),
+        rule: "cases = limit N in {0,1,2,63,64,1023,1024,1025, random <= 5000} x pre-existing active file (absent / N-1 / N / N+1 / random) x append or truncate mode x window count 1-3 x pattern or multi-chunk encoder x 1-25 operations: appends whose byte length is chosen relative to the room left before the limit (room-3..room+3) or absolute around the 1 KiB buffer, with 1-4-byte characters, and restarts; the real CompoundPolicy(SizeTrigger, FixedWindowRoller) is wrapped in a harness Policy recording len_estimate and fs::metadata().len() at every consultation. Oracle: exactly one consultation per append; len_estimate == on-disk size == model size (pre-existing + records; 0 at open in truncate mode); rotation during this append iff size > N; afterwards the active file is absent or <= N bytes and byte-identical to pre-existing ++ records; the newest archive equals the rolled content. non-trivial = a consultation with |size - N| <= 1, or pre-existing content in append mode, or multi-byte payload, or a scripted roller failure (user-defined roller around the real one that fails on chosen calls and leaves the file in place: accounting and re-triggering must stay exact)".into(),
         assumptions: vec!["foreground rotation build".into()],
         mutants_caught: vec![],
     }
